@@ -216,51 +216,73 @@ def readAttrs : Nat → Bytes → List (Bytes × Bytes) → Except String (List 
   | 0, _, _ => .error "too many attributes"
   | fuel + 1, s, acc =>
     match dropSpace s with
-    | 62 :: rest => .ok (acc.reverse, false, rest)
-    | 47 :: 62 :: rest => .ok (acc.reverse, true, rest)
-    | s' =>
-      if s'.length = s.length then .error "white space required between attributes" else
-      match takeName s' [] with
-      | (key, 61 :: 34 :: more) =>
-        if key.isEmpty then .error "attribute name expected"
-        else if acc.any (fun p => p.1 == key) then .error "duplicate attribute"
-        else
-          match scanAttr none more [] with
-          | some (v, after) => readAttrs fuel after ((key, v) :: acc)
-          | none => .error "attribute value is not well formed (raw <, bad reference, or not closed)"
-      | _ => .error "malformed attribute"
+    | [] => .error "tag not closed"
+    | c :: rest =>
+      if c = 62 then .ok (acc.reverse, false, rest)
+      else if c = 47 then
+        match rest with
+        | [] => .error "tag not closed"
+        | d :: rest' => if d = 62 then .ok (acc.reverse, true, rest') else .error "malformed empty-element tag"
+      else if (c :: rest).length = s.length then .error "white space required between attributes"
+      else
+        match takeName (c :: rest) [] with
+        | (key, more) =>
+          match more with
+          | e :: q :: value =>
+            if e = 61 ∧ q = 34 then
+              if key.isEmpty then .error "attribute name expected"
+              else if acc.any (fun p => p.1 == key) then .error "duplicate attribute"
+              else
+                match scanAttr none value [] with
+                | some (v, after) => readAttrs fuel after ((key, v) :: acc)
+                | none => .error "attribute value is not well formed (raw <, bad reference, or not closed)"
+            else .error "malformed attribute"
+          | _ => .error "malformed attribute"
 
+/-- what follows the first `?>` -/
 def dropUntilPiEnd : Bytes → Option Bytes
   | [] => none
-  | 63 :: 62 :: rest => some rest
-  | _ :: rest => dropUntilPiEnd rest
+  | c :: rest =>
+    if c = 63 then
+      match rest with
+      | [] => none
+      | d :: rest' => if d = 62 then some rest' else dropUntilPiEnd rest
+    else dropUntilPiEnd rest
 
 def tokenize : Nat → Bytes → List Tok → Except String (List Tok)
   | 0, _, _ => .error "out of fuel"
   | fuel + 1, s, acc =>
     match s with
     | [] => .ok acc.reverse
-    | 60 :: 63 :: rest =>
-      match dropUntilPiEnd rest with
-      | some after => tokenize fuel after (.pi :: acc)
-      | none => .error "processing instruction not closed"
-    | 60 :: 47 :: rest =>
-      match takeName rest [] with
-      | (name, more) =>
-        match dropSpace more with
-        | 62 :: after => if name.isEmpty then .error "element name expected" else tokenize fuel after (.close name :: acc)
-        | _ => .error "end tag not closed"
-    | 60 :: rest =>
-      match takeName rest [] with
-      | (name, more) =>
-        if name.isEmpty then .error "element name expected after <" else
-        match readAttrs (more.length + 1) more [] with
-        | .ok (attrs, sc, after) => tokenize fuel after (.open_ name attrs sc :: acc)
-        | .error e => .error e
-    | _ =>
-      match scanText none s [] with
-      | some (t, after) => if after.length < s.length then tokenize fuel after (.text t :: acc) else .error "no progress"
-      | none => .error "text is not well formed (bad reference)"
+    | c :: rest =>
+      if c = 60 then
+        match rest with
+        | [] => .error "tag not closed"
+        | d :: rest' =>
+          if d = 63 then
+            match dropUntilPiEnd rest' with
+            | some after => tokenize fuel after (.pi :: acc)
+            | none => .error "processing instruction not closed"
+          else if d = 47 then
+            match takeName rest' [] with
+            | (name, more) =>
+              match dropSpace more with
+              | [] => .error "end tag not closed"
+              | e :: after =>
+                if e = 62 then
+                  if name.isEmpty then .error "element name expected" else tokenize fuel after (.close name :: acc)
+                else .error "end tag not closed"
+          else
+            match takeName rest [] with
+            | (name, more) =>
+              if name.isEmpty then .error "element name expected after <" else
+              match readAttrs (more.length + 1) more [] with
+              | .ok (attrs, sc, after) => tokenize fuel after (.open_ name attrs sc :: acc)
+              | .error e => .error e
+      else
+        match scanText none s [] with
+        | some (t, after) => if after.length < s.length then tokenize fuel after (.text t :: acc) else .error "no progress"
+        | none => .error "text is not well formed (bad reference)"
 
 def isBlank (t : Bytes) : Bool := t.all isSpace
 
@@ -273,121 +295,174 @@ def getAttr (as : List (Bytes × Bytes)) (k : String) : Except String Bytes :=
   | some p => .ok p.2
   | none => .error ("attribute missing: " ++ k)
 
-def intOfBytes? (b : Bytes) : Option Int :=
-  let digits (ds : Bytes) : Option Nat :=
-    if ds.isEmpty then none else
-    ds.foldl (fun (acc : Option Nat) (c : UInt8) =>
-      match acc with
-      | some n => if 48 ≤ c ∧ c ≤ 57 then some (n * 10 + (c.toNat - 48)) else none
-      | none => none) (some 0)
-  match b with
-  | 45 :: ds => (digits ds).map fun n => - (n : Int)
-  | ds => (digits ds).map fun n => (n : Int)
+def digitStep (acc : Option Nat) (c : UInt8) : Option Nat :=
+  match acc with
+  | some n => if 48 ≤ c ∧ c ≤ 57 then some (n * 10 + (c.toNat - 48)) else none
+  | none => none
 
-def getInt (as : List (Bytes × Bytes)) (k : String) : Except String Int := do
-  let v ← getAttr as k
-  match intOfBytes? v with
-  | some z => .ok z
-  | none => .error ("attribute is not a number: " ++ k)
+/-- value of a non-empty string of decimal digits -/
+def digitsVal? (ds : Bytes) : Option Nat := if ds.isEmpty then none else ds.foldl digitStep (some 0)
+
+def intOfBytes? (b : Bytes) : Option Int :=
+  match b with
+  | [] => none
+  | c :: ds => if c = 45 then (digitsVal? ds).map fun n => - (n : Int) else (digitsVal? (c :: ds)).map fun n => (n : Int)
+
+def getInt (as : List (Bytes × Bytes)) (k : String) : Except String Int :=
+  match getAttr as k with
+  | .error e => .error e
+  | .ok v =>
+    match intOfBytes? v with
+    | some z => .ok z
+    | none => .error ("attribute is not a number: " ++ k)
+
+/-- bytes before the first `.`, and what follows it -/
+def splitAtDot : Bytes → Bytes → Option (Bytes × Bytes)
+  | [], _ => none
+  | c :: rest, acc => if c = 46 then some (acc.reverse, rest) else splitAtDot rest (c :: acc)
 
 /-- `S.mmm` -/
-def getTime (as : List (Bytes × Bytes)) (k : String) : Except String (Int × Nat) := do
-  let v ← getAttr as k
-  match v.span (· != 46) with
-  | (a, 46 :: b) =>
-    match intOfBytes? a, intOfBytes? b with
-    | some s, some m => if b.length = 3 ∧ m ≥ 0 then .ok (s, m.toNat) else .error "time: three decimals expected"
-    | _, _ => .error "time is not a number"
-  | _ => .error "time has no decimal point"
+def getTime (as : List (Bytes × Bytes)) (k : String) : Except String (Int × Nat) :=
+  match getAttr as k with
+  | .error e => .error e
+  | .ok v =>
+    match splitAtDot v [] with
+    | some (a, b) =>
+      match intOfBytes? a, digitsVal? b with
+      | some s, some m => if b.length = 3 then .ok (s, m) else .error "time: three decimals expected"
+      | _, _ => .error "time is not a number"
+    | none => .error "time has no decimal point"
+
+/-- a `Case` from the attributes of a `<testcase …>` tag and what its children said -/
+def caseOfAttrs (attrs : List (Bytes × Bytes)) (f : Option Bytes) (sk : Bool) : Except String Case :=
+  match getAttr attrs "classname" with
+  | .error e => .error e
+  | .ok classname =>
+    match getAttr attrs "name" with
+    | .error e => .error e
+    | .ok nm =>
+      match getInt attrs "assertions" with
+      | .error e => .error e
+      | .ok assertions =>
+        match getTime attrs "time" with
+        | .error e => .error e
+        | .ok (secs, millis) =>
+          match getAttr attrs "file" with
+          | .error e => .error e
+          | .ok file =>
+            match getInt attrs "line" with
+            | .error e => .error e
+            | .ok line =>
+              .ok { classname := classname, name := nm, assertions := assertions, secs := secs, millis := millis,
+                    file := file, line := line, failure := f, skipped := sk }
+
+/-- the children of a `<testcase>` up to and including `</testcase>`:
+    (failure message, skipped marker, tokens that follow) -/
+def readCaseBody (ts : List Tok) : Except String (Option Bytes × Bool × List Tok) :=
+  match dropBlank ts with
+  | .close n :: rest => if n = lit "testcase" then .ok (none, false, rest) else .error "testcase not closed"
+  | .open_ n as sc :: rest =>
+    if n = lit "skipped" ∧ sc = true then
+      match dropBlank rest with
+      | .close n2 :: rest' => if n2 = lit "testcase" then .ok (none, true, rest') else .error "testcase not closed"
+      | _ => .error "testcase not closed after skipped"
+    else if n = lit "failure" ∧ sc = false then
+      match getAttr as "message" with
+      | .error e => .error e
+      | .ok m =>
+        match dropBlank rest with
+        | .close n2 :: rest' =>
+          if n2 = lit "failure" then
+            match dropBlank rest' with
+            | .close n3 :: rest'' => if n3 = lit "testcase" then .ok (some m, false, rest'') else .error "testcase not closed"
+            | _ => .error "testcase not closed after failure"
+          else .error "failure not closed"
+        | _ => .error "failure element not closed"
+    else .error "unexpected element inside testcase"
+  | _ => .error "unexpected content inside testcase"
 
 /-- test cases up to `<system-out>` -/
 def readCases : Nat → List Tok → List Case → Except String (List Case × List Tok)
   | 0, _, _ => .error "out of fuel"
   | fuel + 1, ts, acc =>
     match dropBlank ts with
-    | .open_ name attrs false :: rest =>
-      if name = lit "testcase" then do
-        let classname ← getAttr attrs "classname"
-        let nm ← getAttr attrs "name"
-        let assertions ← getInt attrs "assertions"
-        let (secs, millis) ← getTime attrs "time"
-        let file ← getAttr attrs "file"
-        let line ← getInt attrs "line"
-        let mk (f : Option Bytes) (sk : Bool) : Case :=
-          { classname := classname, name := nm, assertions := assertions, secs := secs, millis := millis,
-            file := file, line := line, failure := f, skipped := sk }
-        match dropBlank rest with
-        | .close n :: rest' =>
-          if n = lit "testcase" then readCases fuel rest' (mk none false :: acc) else .error "testcase not closed"
-        | .open_ n as sc :: rest' =>
-          if n = lit "skipped" ∧ sc then
-            match dropBlank rest' with
-            | .close n2 :: rest'' =>
-              if n2 = lit "testcase" then readCases fuel rest'' (mk none true :: acc) else .error "testcase not closed"
-            | _ => .error "testcase not closed after skipped"
-          else if n = lit "failure" ∧ !sc then do
-            let m ← getAttr as "message"
-            match dropBlank rest' with
-            | .close n2 :: rest'' =>
-              if n2 ≠ lit "failure" then .error "failure not closed" else
-              match dropBlank rest'' with
-              | .close n3 :: rest3 =>
-                if n3 = lit "testcase" then readCases fuel rest3 (mk (some m) false :: acc) else .error "testcase not closed"
-              | _ => .error "testcase not closed after failure"
-            | _ => .error "failure element not closed"
-          else .error "unexpected element inside testcase"
-        | _ => .error "unexpected content inside testcase"
-      else .ok (acc.reverse, dropBlank ts)
+    | .open_ name attrs sc :: rest =>
+      if name = lit "testcase" ∧ sc = false then
+        match readCaseBody rest with
+        | .error e => .error e
+        | .ok (f, sk, rest') =>
+          match caseOfAttrs attrs f sk with
+          | .error e => .error e
+          | .ok c => readCases fuel rest' (c :: acc)
+      else .ok (acc.reverse, .open_ name attrs sc :: rest)
     | other => .ok (acc.reverse, other)
+
+/-- the `<testsuite …>` attributes -/
+def suiteOfAttrs (attrs : List (Bytes × Bytes)) (cases : List Case) (out : Bytes) : Except String Suite :=
+  match getInt attrs "failures" with
+  | .error e => .error e
+  | .ok failures =>
+    match getAttr attrs "name" with
+    | .error e => .error e
+    | .ok nm =>
+      match getInt attrs "tests" with
+      | .error e => .error e
+      | .ok tests =>
+        match getTime attrs "time" with
+        | .error e => .error e
+        | .ok (secs, millis) =>
+          match getAttr attrs "timestamp" with
+          | .error e => .error e
+          | .ok timestamp =>
+            .ok { failures := failures, name := nm, tests := tests, secs := secs, millis := millis,
+                  timestamp := timestamp, cases := cases, stdout := out }
+
+/-- `<system-out>text</system-out> <system-err></system-err> </testsuite>` and nothing else -/
+def readEnding (ts : List Tok) : Except String Bytes :=
+  match ts with
+  | .open_ so _ false :: rest5 =>
+    if so ≠ lit "system-out" then .error "system-out expected" else
+    let out : Bytes := match rest5 with
+      | .text t :: _ => t
+      | _ => []
+    let rest6 : List Tok := match rest5 with
+      | .text _ :: r => r
+      | r => r
+    match rest6 with
+    | .close so2 :: rest7 =>
+      if so2 ≠ lit "system-out" then .error "system-out not closed" else
+      match dropBlank rest7 with
+      | .open_ se _ false :: .close se2 :: rest8 =>
+        if se ≠ lit "system-err" ∨ se2 ≠ lit "system-err" then .error "system-err expected" else
+        match dropBlank rest8 with
+        | [.close r] => if r = lit "testsuite" then .ok out else .error "testsuite not closed"
+        | [.close r, .text t] =>
+          if r = lit "testsuite" ∧ isBlank t then .ok out else .error "content after the root element"
+        | _ => .error "testsuite not closed"
+      | _ => .error "system-err expected"
+    | _ => .error "system-out not closed (markup inside the captured output?)"
+  | _ => .error "system-out expected after the test cases"
 
 def readSuite (ts : List Tok) : Except String Suite :=
   match ts with
   | .pi :: rest =>
     match dropBlank rest with
     | .open_ name attrs false :: rest1 =>
-      if name ≠ lit "testsuite" then .error "root element is not testsuite" else do
-        let failures ← getInt attrs "failures"
-        let nm ← getAttr attrs "name"
-        let tests ← getInt attrs "tests"
-        let (secs, millis) ← getTime attrs "time"
-        let timestamp ← getAttr attrs "timestamp"
-        match dropBlank rest1 with
-        | .open_ p _ false :: rest2 =>
-          if p ≠ lit "properties" then .error "properties expected" else
-          match dropBlank rest2 with
-          | .close p2 :: rest3 =>
-            if p2 ≠ lit "properties" then .error "properties not closed" else do
-              let (cases, rest4) ← readCases (rest3.length + 1) rest3 []
-              match rest4 with
-              | .open_ so _ false :: rest5 =>
-                if so ≠ lit "system-out" then .error "system-out expected" else
-                let (out, rest6) : Bytes × List Tok :=
-                  match rest5 with
-                  | .text t :: r => (t, r)
-                  | r => ([], r)
-                match rest6 with
-                | .close so2 :: rest7 =>
-                  if so2 ≠ lit "system-out" then .error "system-out not closed" else
-                  match dropBlank rest7 with
-                  | .open_ se _ false :: .close se2 :: rest8 =>
-                    if se ≠ lit "system-err" ∨ se2 ≠ lit "system-err" then .error "system-err expected" else
-                    match dropBlank rest8 with
-                    | [.close r] =>
-                      if r = lit "testsuite" then
-                        .ok { failures := failures, name := nm, tests := tests, secs := secs, millis := millis,
-                              timestamp := timestamp, cases := cases, stdout := out }
-                      else .error "testsuite not closed"
-                    | [.close r, .text t] =>
-                      if r = lit "testsuite" ∧ isBlank t then
-                        .ok { failures := failures, name := nm, tests := tests, secs := secs, millis := millis,
-                              timestamp := timestamp, cases := cases, stdout := out }
-                      else .error "content after the root element"
-                    | _ => .error "testsuite not closed"
-                  | _ => .error "system-err expected"
-                | _ => .error "system-out not closed (markup inside the captured output?)"
-              | _ => .error "system-out expected after the test cases"
-          | _ => .error "properties not closed"
-        | _ => .error "properties expected"
+      if name ≠ lit "testsuite" then .error "root element is not testsuite" else
+      match dropBlank rest1 with
+      | .open_ p _ false :: rest2 =>
+        if p ≠ lit "properties" then .error "properties expected" else
+        match dropBlank rest2 with
+        | .close p2 :: rest3 =>
+          if p2 ≠ lit "properties" then .error "properties not closed" else
+          match readCases (rest3.length + 1) rest3 [] with
+          | .error e => .error e
+          | .ok (cases, rest4) =>
+            match readEnding rest4 with
+            | .error e => .error e
+            | .ok out => suiteOfAttrs attrs cases out
+        | _ => .error "properties not closed"
+      | _ => .error "properties expected"
     | _ => .error "testsuite element expected"
   | _ => .error "XML declaration expected"
 
